@@ -38,7 +38,7 @@ def rule_clock(ctx: Ctx) -> None:
         for s in A.stores(fn):
             if isinstance(s.target, ast.Attribute) and s.target.attr == "_last_dt":
                 writers.setdefault(fn.qualname, []).append(s)
-    ctx.floor("C12.1", "functions writing _last_dt", len(writers), 4)
+    ctx.floor("C12.1", "functions writing _last_dt", len(writers), 3)
     allowed = {f"{BD}.__init__", f"{BD}._set_now", f"{BD}._dispatch_scheduled", f"{BD}._dispatch_events"}
     for q, ss in sorted(writers.items()):
         fn = ctx.repo.funcs[q]
@@ -57,7 +57,17 @@ def rule_clock(ctx: Ctx) -> None:
                   "the clock is set to a job's time without checking it is later")
     de = ctx.func(f"{BD}._dispatch_events")
     g = ctx.cfg(de)
-    st = writers.get(de.qualname, [])
+    st = list(writers.get(de.qualname, []))
+    # a call of self._set_now(x) is a clock store of x as well
+    class _CS:
+        pass
+    for c_ in A.func_calls(de, shallow=False):
+        if (A.call_name(c_) or "") == "self._set_now" and c_.args:
+            cs = _CS()
+            cs.stmt = A.stmt_of(c_)
+            cs.node = _CS()
+            cs.node.value = c_.args[0]
+            st.append(cs)
     ctx.require(len(st) == 1, "C12.1: _dispatch_events should store the clock exactly once")
     ctx.check(A.dotted(st[0].node.value) == de.params[1], "C12.1", "the clock is set to the time of the pass", de, st[0].stmt, f"= {de.params[1]}",
               "the clock is set to something other than the pass time")
@@ -151,6 +161,28 @@ def rule_mux(ctx: Ctx) -> None:
                   "pop() is the last operand of the loop test and the loop body yields", "an event can be removed from its source's slot and then not "
                   "be handed on (the loop test can still fail after pop() returned an event): that event is delivered zero times",
                   key_text="popped events are yielded")
+    # the multiplexer tells "an event" from "nothing" by truth value (`if event := source.pop()`, `if evnt and ...`): every Event class must
+    # be always-true, i.e. define neither __bool__ nor __len__ (an 'empty' event would be dropped, or would wedge its source's slot)
+    truthy_tests = [n for f_ in (pop, ctx.repo.funcs.get(f"{MX}._prefetch") or pk) for n in ast.walk(f_.node)
+                    if isinstance(n, (ast.If, ast.IfExp, ast.comprehension)) or isinstance(n, ast.NamedExpr)]
+    base_ev = "basana.core.event.Event"
+    offenders = []
+    for cq in sorted(ctx.facts.subclasses(base_ev)):
+        ci_ = ctx.repo.classes.get(cq)
+        if ci_ is None:
+            continue
+        offenders += [(cq, m.name, m) for m in ci_.node.body if isinstance(m, (ast.FunctionDef, ast.AsyncFunctionDef)) and m.name in ("__bool__", "__len__")]
+    ctx.count("C12.3:event classes inspected for truthiness", len(list(ctx.facts.subclasses(base_ev))))
+    if offenders:
+        cq, mname, mnode = offenders[0]
+        cfn = ctx.repo.funcs.get(f"{cq}.{mname}")
+        ctx.bad("C12.3", "events are always true (the multiplexer separates 'an event' from 'nothing' by truth value)", cfn, mnode,
+                f"{cq.rsplit('.', 1)[-1]} defines {mname}: an instance can be falsy, so EventMultiplexer drops it in _prefetch (`if event := source.pop()`) or never "
+                "returns nor clears it in pop (`if evnt and ...`): the event is delivered zero times and its source can stop being polled",
+                key_text=f"event truthiness {cq}.{mname}")
+    else:
+        ctx.ok("C12.3", "events are always true (the multiplexer separates 'an event' from 'nothing' by truth value)", pop, pop.node,
+               "no Event subclass defines __bool__ / __len__", key_text="event truthiness")
     add = ctx.func(f"{MX}.add")
     ctx.check("self._prefetched_events.setdefault(source)" in ast.unparse(add.node), "C12.3", "adding a source twice keeps its slot", add, add.node,
               "setdefault", "re-adding a source can drop its prefetched event", key_text="mux add")
